@@ -33,7 +33,7 @@ def _run_worker(job):
     tag = f'{flavour}-s{seed}-{shard}of{nshards}'
     out = outdir / f'{tag}.json'
     prog = outdir / f'{tag}.progress'
-    env = build.worker_env(shadow, flavour, {'VF_PROGRESS': str(prog)})
+    env = build.worker_env(shadow, flavour, {'VF_PROGRESS': str(prog), 'VF_FIRST_SEED': os.environ.get('VF_FIRST_SEED', '')})
     cmd = [PY, '-W', 'ignore', '-m', 'vf.worker', prop, '--tier', tier, '--seed', str(seed),
            '--shard', f'{shard}/{nshards}', '--out', str(out)]
     if only:
@@ -89,6 +89,7 @@ def main(argv=None):
             outdir = Path(od)
             jobs = []
             seeds = [seed + k for k in range(cfg['seeds'])]
+            os.environ['VF_FIRST_SEED'] = str(seed)
             for fl in flavours:
                 if a.only:
                     jobs.append((prop, tier, seed, 0, 1, fl, shadows[fl], outdir, cfg['timeout'], a.only))
